@@ -48,7 +48,7 @@ CHECKS = {
         'tolerances (1e-5 containment, 1e-4 relative uncovered area); coverage is decided on instances only.',
    design='5/C07'),
  'C04': dict(
-   technique='Coq proof over R (trigonometric identities for the two arcs of an S-bend, squared length, circle membership, sinusoidal end points) and over Q (linear / end) + differential on the appended block of every segment call',
+   technique='Coq proof over R (trigonometric identities for the two arcs of an S-bend, squared length, circle membership, sinusoidal end points) and over Q (linear / end) + source translator (LaserPath.init_point / start / end proved to open and close a path as the model says, coq/tie/EquivLb.v) + differential on the appended block of every segment call',
    text='Props/C04.v: for every radius r > 0 and offset |dy| <= 4r the two arcs of an S-bend start at the current point, end at '
         '(x0 + L, y0 +- |dy|) with L^2 = 4 r |dy| - dy^2, L >= 0, and every arc point lies on its circle of radius r; couplers / MZIs '
         'return to the entry y after 2L+|int| (4L+2|int|+|arm|); sinusoidal bends reach dy, bridges return to the original depth '
@@ -63,7 +63,7 @@ CHECKS = {
         'interior points of sinusoidal / spline curves are not characterised.',
    design='5/C04'),
  'C10': dict(
-   technique='Coq proof (invariant over all histories of the single store point add_path and of the single print point _format_args, with the float32 cast modelled) + degenerate-value differential on every builder in resource-limited child processes',
+   technique='Coq proof (invariant over all histories of the single store point add_path and of the single print point _format_args, with the float32 cast modelled) + source translator (LaserPath.add_path translated and proved - for any reading of the float32 conversion, isfinite and > 0 - to store only checked values; equal to the model on the extended numbers; the raster builder proved to store through add_path only) + degenerate-value differential on every builder in resource-limited child processes',
    text='Props/C10.v: whatever blocks the builders hand to add_path, in any order, the stored trajectory only ever holds finite '
         'coordinates and finite positive feeds (a refused block raises and leaves the path unchanged); nothing non-finite is '
         'printed by _format_args. Tie to /repo: every builder of Waveguide / Marker / RasterImage and move_to / write / set_home '
@@ -159,7 +159,7 @@ CHECKS = {
         'repetition count follows from C01 + REPEAT semantics + the token-level tie, it is not a single end-to-end theorem.',
    design='5/C08'),
  'C14': dict(
-   technique='Coq proof (strokes of the modelled start/linear/end sequences = documented figures; induction over ticks, passes, vertices, copies) + source translator (the five Marker methods read as sequences of start / linear / end calls; cross and ruler proved equal to the model) + stroke-level differential on Marker.points',
+   technique='Coq proof (strokes of the modelled start/linear/end sequences = documented figures; induction over ticks, passes, vertices, copies) + source translator (the five Marker methods read as sequences of start / linear / end calls; all proved equal to the model except ablation with displaced copies; LaserPath.start / end translated and proved) + stroke-level differential on Marker.points',
    text='Props/C14.v: for all positions, lengths, tick lists, extents, vertex lists and shifts the open-shutter strokes of the '
         'modelled cross / ruler / meander / ablation / box are exactly the documented figures (two centred arms; one stroke per '
         'distinct tick in increasing y from x_init to the absolute tick x; one stroke of floor(ext/delta)+1 alternating lines; '
@@ -168,8 +168,9 @@ CHECKS = {
         'orientations and directions); femto\'s recorded trajectory is compared point by point with the model and the strokes '
         'of its raw trajectory and of its points matrix with the model\'s strokes. SOURCE TIE: Marker.cross / ruler / meander / '
         'ablation / box are re-translated from /repo on every run (SrcMk.v) over hand-given start / linear / end (coq/tie/MkState.v); '
-        'coq/tie/EquivMk.v proves cross (2-D, 3-D, refusal) and ruler to record exactly the model\'s trajectory; the other three must '
-        'stay inside the translated subset and type-check.',
+        'coq/tie/EquivMk.v proves cross (2-D, 3-D, refusal), ruler, ablation (no displaced copies), box and meander (both orientations, 2-D / 3-D '
+        'start) to record exactly the model\'s trajectory (10 theorems); coq/tie/EquivLb.v proves the translated LaserPath.start / end to be the '
+        'block functions of Path/Laser.v.',
    note='Trusted: Coq kernel; coq/tie/MkState.v (LaserPath.start / linear / end and the numpy calls of marker.py given by hand); exact-rational model vs float32 storage compared within 1e-5*(1+|v|); meander pass counts are '
         'generated away from integer quotients.',
    design='5/C14'),
@@ -184,7 +185,7 @@ CHECKS = {
         'float32 storage tolerance; S-bend length taken from femto.',
    design='5/C13'),
  'C15': dict(
-   technique='Coq proof (induction over rows and runs; strokes of the modelled trajectory = spec) + exhaustive small images and random large ones, stroke-level monitor',
+   technique='Coq proof (induction over rows and runs; strokes of the modelled trajectory = spec) + source translator (image_to_path translated, with the translated split_mask, and proved to record the model's raster for every matrix: coq/tie/EquivRi.v) + exhaustive small images and random large ones, stroke-level monitor',
    text='Props/C15.v: for every boolean matrix, size and scale the open-shutter strokes of the modelled raster trajectory are, in '
         'image order, one stroke per maximal run of black pixels spanning first..last pixel x at the row y; runs contain only '
         'black pixels (C11 run theorems). Tie to /repo: image_to_path is run on every image with w*h <= 8 (quick) / 12 (thorough) '
